@@ -3,6 +3,7 @@ package main
 // Symbolic execution of naive-form SSA, block by block, merging at joins (passive form).
 
 import (
+	"math/big"
 	"fmt"
 	"go/constant"
 	"go/token"
@@ -172,10 +173,24 @@ func (g *Gen) merge(ins []inEdge, label string) *State {
 			return first
 		}
 		x := g.fresh(prefix, sort)
+		tok, tokOK := "", len(g.addrTokens) > 0
 		for i, t := range terms {
 			if have[i] {
 				g.addCons(smtImp(conds[i], smtEq(x, t)))
+				if tokOK && t != "0" {
+					// an address token merged with nil (or with itself) stays recoverable under the merged name
+					if lv := g.tokenLV(t); lv != nil && (tok == "" || tok == addrTokenRe.FindString(t)) && addrTokenRe.FindString(t) == t {
+						tok = t
+					} else {
+						tokOK = false
+					}
+				}
 			}
+		}
+		if tokOK && tok != "" {
+			cp := *g.addrTokens[tok]
+			g.addrTokens[x] = &cp
+			g.tokenAlias = append(g.tokenAlias, x)
 		}
 		return x
 	}
@@ -844,6 +859,11 @@ func (g *Gen) lvOf(fr *frame, st *State, p *Value) *LValue {
 		return &LValue{Kind: lvBox, Obj: "0", Root: types.Typ[types.Int], T: types.Typ[types.Int]}
 	}
 	elem := pt.Elem()
+	if len(p.L) == 1 {
+		if tlv := g.tokenLV(p.L[0]); tlv != nil {
+			return tlv
+		}
+	}
 	if _, isStruct := types.Unalias(elem).Underlying().(*types.Struct); isStruct && !g.W.shapes.opaque[typeKey(elem)] {
 		return &LValue{Kind: lvHeap, Obj: p.term(), Root: elem, T: elem}
 	}
@@ -897,7 +917,7 @@ func (g *Gen) execInstr(fr *frame, st *State, in ssa.Instruction) {
 		p := g.val(fr, st, i.Addr)
 		lv := g.lvOf(fr, st, p)
 		if g.isHeapLV(lv) {
-			g.guard(fr, st, "nil", "*"+exprOr(fr.text[i.Addr], i.Addr.Name()), "(not (= "+lv.Obj+" 0))")
+			g.guard(fr, st, "nil", "*"+exprOr(fr.text[i.Addr], i.Addr.Name()), "(not (= "+nilTermOf(lv)+" 0))")
 		}
 		v := g.val(fr, st, i.Val)
 		if v.LV != nil && len(v.L) == 1 && strings.HasPrefix(v.L[0], "?") {
@@ -920,7 +940,7 @@ func (g *Gen) execInstr(fr *frame, st *State, in ssa.Instruction) {
 		sv := types.Unalias(stt).Underlying().(*types.Struct)
 		f := sv.Field(i.Field)
 		if g.isHeapLV(base) {
-			g.guard(fr, st, "nil", exprOr(fr.text[i.X], i.X.Name())+"."+f.Name(), "(not (= "+base.Obj+" 0))")
+			g.guard(fr, st, "nil", exprOr(fr.text[i.X], i.X.Name())+"."+f.Name(), "(not (= "+nilTermOf(base)+" 0))")
 		}
 		nlv := *base
 		nlv.Path = base.Path + "." + f.Name()
@@ -1093,7 +1113,7 @@ func (g *Gen) unop(fr *frame, st *State, i *ssa.UnOp) {
 		p := g.val(fr, st, i.X)
 		lv := g.lvOf(fr, st, p)
 		if g.isHeapLV(lv) {
-			g.guard(fr, st, "nil", "*"+exprOr(fr.text[i.X], i.X.Name()), "(not (= "+lv.Obj+" 0))")
+			g.guard(fr, st, "nil", "*"+exprOr(fr.text[i.X], i.X.Name()), "(not (= "+nilTermOf(lv)+" 0))")
 		}
 		v := g.load(st, lv)
 		if lv.Kind != lvCell {
@@ -1241,6 +1261,10 @@ func (g *Gen) bitop(fr *frame, st *State, op token.Token, x, y *Value, rt types.
 	switch op {
 	case token.SHL:
 		if n, ok := litVal(b); ok && n < 64 {
+			if x.Bits > 0 && !signed && x.Bits+int(n) <= intBits(rt) {
+				// no bit is shifted out: exact
+				return &Value{T: rt, L: []string{"(* " + a + " " + bigPow2(n, "") + ")"}, Bits: x.Bits + int(n), LowZ: x.LowZ + int(n)}
+			}
 			return g.wrap(st, rt, "(* "+a+" "+bigPow2(n, "")+")")
 		}
 		g.decl("(declare-fun pow2 (Int) Int)")
@@ -1253,6 +1277,18 @@ func (g *Gen) bitop(fr *frame, st *State, op token.Token, x, y *Value, rt types.
 		g.decl("(declare-fun pow2 (Int) Int)")
 		g.pow2Axioms()
 		return &Value{T: rt, L: []string{"(div " + a + " (pow2 " + b + "))"}}
+	case token.OR:
+		// operands occupying disjoint bit ranges: or is addition
+		if !signed && x.Bits > 0 && y.Bits > 0 && (x.LowZ >= y.Bits || y.LowZ >= x.Bits) {
+			bits, lowz := x.Bits, x.LowZ
+			if y.Bits > bits {
+				bits = y.Bits
+			}
+			if y.LowZ < lowz {
+				lowz = y.LowZ
+			}
+			return &Value{T: rt, L: []string{"(+ " + a + " " + b + ")"}, Bits: bits, LowZ: lowz}
+		}
 	case token.AND:
 		if n, ok := litVal(b); ok && n >= 0 && (n&(n+1)) == 0 && !signed {
 			return &Value{T: rt, L: []string{"(mod " + a + " " + fmt.Sprint(n+1) + ")"}}
@@ -1350,7 +1386,7 @@ func (g *Gen) indexAddr(fr *frame, st *State, i *ssa.IndexAddr) {
 		arr := types.Unalias(u.Elem()).Underlying().(*types.Array)
 		base := g.lvOf(fr, st, x)
 		if g.isHeapLV(base) {
-			g.guard(fr, st, "nil", what, "(not (= "+base.Obj+" 0))")
+			g.guard(fr, st, "nil", what, "(not (= "+nilTermOf(base)+" 0))")
 		}
 		g.guard(fr, st, "index", what, fmt.Sprintf("(and (<= 0 %s) (< %s %d))", idx, idx, arr.Len()))
 		sh := g.W.shapes.shape(u.Elem())
@@ -1529,6 +1565,38 @@ func (g *Gen) typeAssert(fr *frame, st *State, i *ssa.TypeAssert) {
 func (g *Gen) convert(fr *frame, st *State, x *Value, from, to types.Type) *Value {
 	switch {
 	case isIntType(from) && isIntType(to):
+		if flo, fhi, _, fsigned, ok := intRange(from); ok && !fsigned {
+			if tlo, thi, _, _, ok2 := intRange(to); ok2 && bigLE(tlo, flo) && bigLE(fhi, thi) {
+				// widening of an unsigned value: same number; remember how many bits it can occupy
+				bits := x.Bits
+				if bits == 0 {
+					bits = intBits(from)
+				}
+				return &Value{T: to, L: x.L, Bits: bits, LowZ: x.LowZ}
+			}
+		}
+		if _, _, fmodS, fsigned, ok := intRange(from); ok && !fsigned {
+			if _, _, tmod, tsigned, ok2 := intRange(to); ok2 && !tsigned && fmodS != tmod {
+				// narrowing of an unsigned value: the low bits. For a shifted operand (div A P) the quotient chain is
+				// made explicit so that byte-wise decompositions stay linear: (div A P) = tmod*(div A (P*tmod)) + r
+				t := x.term()
+				var num, den string
+				if parts := splitSexp(t); len(parts) == 3 && parts[0] == "div" && isLiteral(parts[2]) {
+					num, den = parts[1], parts[2]
+				} else {
+					num, den = t, "1"
+				}
+				d, m := new(big.Int), new(big.Int)
+				if _, ok := d.SetString(den, 10); ok {
+					if _, ok := m.SetString(tmod, 10); ok {
+						r := g.fresh("lo", sInt)
+						hi := fmt.Sprintf("(div %s %s)", num, new(big.Int).Mul(d, m).String())
+						g.addCons(fmt.Sprintf("(and (= %s (+ (* %s %s) %s)) (<= 0 %s) (< %s %s))", t, tmod, hi, r, r, r, tmod))
+						return &Value{T: to, L: []string{r}}
+					}
+				}
+			}
+		}
 		return g.wrap(st, to, x.term())
 	case isIntType(from) && isFloatType(to), isFloatType(from):
 		g.note("floating point conversion is opaque")
@@ -1638,6 +1706,13 @@ func (g *Gen) makeBound(fr *frame, st *State, i *ssa.MakeSlice, ln string) {
 	if !g.panicsNever || (g.fc != nil && g.fc.AllocUnbounded) {
 		return
 	}
+	if g.fc != nil && len(g.fc.AllocBound) > 0 && fr.fn == g.fn {
+		for _, cl := range g.fc.AllocBound {
+			env := &Env{g: g, st: st, old: fr.old, vars: map[string]*Value{}, fr: fr, pkgPath: fr.fn.Pkg.Pkg.Path(), inBody: true, bound: map[string]*Value{"$n": mathVal(ln)}}
+			g.addOblig(st, "safety", g.safetyName("allocbound", exprOr(fr.text[i], "make")), env.evalBool(cl.E), "allocation size: "+cl.Src)
+		}
+		return
+	}
 	g.addOblig(st, "safety", g.safetyName("makebound", exprOr(fr.text[i], "make")), fmt.Sprintf("(<= %s %d)", ln, g.W.maxMake()), "allocation size bounded")
 }
 
@@ -1712,4 +1787,12 @@ func privateLocal(a *ssa.Alloc) bool {
 		}
 	}
 	return captured
+}
+
+// nilTermOf: the term whose being zero means "nil pointer" for a dereference at lv.
+func nilTermOf(lv *LValue) string {
+	if lv.Ptr != "" {
+		return lv.Ptr
+	}
+	return lv.Obj
 }
